@@ -41,6 +41,8 @@ def shards(tier, seed):
     for i in range(8 if q else 32):
         out.append(("random_%d" % i, dict(kind="random", cname=names[i % len(names)], count=(1500 if names[i % len(names)] != "NIST521p" else 400) if q else 60000)))
     out.append(("pem", dict(kind="pem", count=1500 if q else 40000)))
+    out.append(("child_struct_priv", dict(kind="struct", cname="SECP112r2", grp="priv", _pyopt="opt+hashseed")))
+    out.append(("child_struct_sig", dict(kind="struct", cname="BRAINPOOLP160r1", grp="sig", _pyopt="hashseed")))
     for i in range(2 if q else 8):
         out.append(("concurrent_loaders_%d" % i, dict(kind="concurrent", runs=120 if q else 1500)))
     if not q:
